@@ -1,6 +1,18 @@
 package main
 
 func init() {
+	props["C05"] = &propCfg{Engine: "E1", Level: "exploration", QuickRuns: 1200, ThoroughMax: 4_000_000, RealStub: e1RealStub,
+		Rule:        "one run = one tape: a generated program with 2-4 distinct failure sites (fatal at distinct call stacks, panics, runtime errors, the non-fatal site) and overlapping conditions, run once with a FROZEN clock (minimization must terminate by itself) and 1-3 more times with the clock cut (CUT(k,delta) with k uniform over the frozen run's history, or DRIP); non-trivial = the frozen run accepted at least one minimization step; distinct by hash(program text, rapid seed, checks)",
+		SimTimeNote: "sum of fake-clock advance inside synctest bubbles"}
+	props["C07"] = &propCfg{Engine: "E1", Level: "exploration", QuickRuns: 1500, ThoroughMax: 4_000_000, RealStub: e1RealStub,
+		Rule:        "one run = one tape: a generated failing program gated by a selector draw with tape-chosen acceptance probability (so the first falsified case lands at indices 0..checks-1), executed twice under identical simulated time (fresh bubbles, fresh directories) and once more with the printed seed; non-trivial = the run failed; distinct by hash(program text, seed, checks, clock policy)",
+		SimTimeNote: "sum of fake-clock advance inside synctest bubbles"}
+	props["C10"] = &propCfg{Engine: "E1", Level: "exploration", QuickRuns: 2000, ThoroughMax: 4_000_000, RealStub: e1RealStub,
+		Rule:        "one run = generated program dense in Cleanup (nested, failing, panicking), Context samples, goroutines parked on Done(), Custom fns with cleanups/contexts that are retried, state machines; failing and minimizing Checks under all clock policies; the bracket automaton is evaluated for every invocation of every kind; non-trivial = at least one cleanup or context in the run; distinct by hash(program text, flags, clock policy)",
+		SimTimeNote: "sum of fake-clock advance inside synctest bubbles"}
+	props["C11"] = &propCfg{Engine: "E1", Level: "exploration", QuickRuns: 2400, ThoroughMax: 4_000_000, RealStub: e1RealStub,
+		Rule:        "one run = a selector program: each test case's behaviour in {pass, skip, errorf, errorf-then-skip, cleanup-time errorf, cleanup-time panic, fatal} is a function of a drawn selector with tape-chosen weights, checks 2-60, all clock policies, -rapid.v on/off; the 49 ordered pairs of consecutive behaviours are reach probes; non-trivial = at least two generated cases; distinct by hash(program text, seed, checks, clock)",
+		SimTimeNote: "sum of fake-clock advance inside synctest bubbles"}
 	props["C01"] = &propCfg{Engine: "E1", Level: "exploration", QuickRuns: 2400, ThoroughMax: 4_000_000, RealStub: e1RealStub,
 		Rule:        "one run = (generated failing property program: 1-4 failure sites of every kind, rejection-based generators, state machines, Custom fns; flags checks/steps/seed/shrinktime/nofailfile/v/debug; clock policy FROZEN/DRIP/HEAVY/CUT(k,delta)/STALL with k uniform over the run's history; optional save-time failure) executed by the real rapid.Check in a synctest bubble (plus a FROZEN pilot for CUT/STALL, also judged); non-trivial = Check reported a failure; distinct by hash(program text, flags, resolved clock policy)",
 		SimTimeNote: "sum of fake-clock advance inside synctest bubbles"}
